@@ -21,7 +21,7 @@ RULE = (
     "containers {PatchedCounts, PatchedSumWeights, NormalisedCounts, CorrFunc (7 member subsets), "
     "CorrData, HistData, RedshiftData} x bins {1,2,3} x patches {2,3,4} x auto/cross with "
     "fingerprint contents; on each: +, sum(), the accumulation idiom total=0; total+=c (twice, operands unchanged), -, * for scalars {0,1,2,-1,0.5,float64(3)} and rejected "
-    "{True,'2',None,array}, ==/!= against copy and 6 perturbations (data containers also with the same NaN jackknife sample on both sides), incompatible operands (other binning, patch count, one patch, one sample), "
+    "{True,'2',None,array}, ==/!= against copy and 6 perturbations (data containers also with the same NaN jackknife sample on both sides), incompatible operands (other binning, binning whose last edge differs by 2e-6, patch count, one patch, one sample), "
     ".bins[e]/.patches[e] for every int in [-n,n-1], out-of-range ints, every slice with "
     "start,stop in {None,-n..n}, stepped slices (step 2,3; omitted bins merge into the preceding selected bin), iteration, loops over a retained indexer after abandoned loops; commuting with sample_patch_sum/sample. "
     "Non-trivial: container with >= 2 bins or an auto container (every case has >= 2 patches); "
@@ -165,6 +165,7 @@ def run_case(case):
         perturbed.append(("sumw", build(case, off1=3)))
     perturbed.append(("closed", build(case, closed="left" if case.get("closed", "right") == "right" else "right")))
     perturbed.append(("edges", build(case, kind="eq" if case.get("kind", "uneq") == "uneq" else "uneq")))
+    perturbed.append(("edges-slightly", build(case, kind=case.get("kind", "uneq") + "~")))
     if B < 3:
         perturbed.append(("more-bins", build(case, B=B + 1)))
     if N < 4:
